@@ -729,3 +729,159 @@ fn host_full_header_map() {
         }
     }
 }
+
+// ======================= A.builder.host_by_connection (layer ORDER in `Builder::build_service`) =======================
+/// (connection number, raw request head) as a raw peer of the in-memory transport receives them
+type SeenHeads = std::sync::Arc<std::sync::Mutex<Vec<(usize, String)>>>;
+
+/// a peer that speaks no HTTP library at all: on every connection of `incoming` it reads request heads (up to the empty
+/// line; the scenarios send no bodies), records them byte for byte and answers `200` with an empty body.  A connection
+/// that starts with the HTTP/2 preface is recorded and closed.
+fn h1_raw_recording_peer(incoming: crate::stream::duplex::DuplexIncoming, seen: SeenHeads) -> tokio::task::JoinHandle<()> {
+    use futures_util::stream::StreamExt as _;
+    use tokio::io::{AsyncReadExt as _, AsyncWriteExt as _};
+    tokio::spawn(async move {
+        let mut incoming = incoming;
+        let mut number = 0usize;
+        while let Some(Ok(mut stream)) = incoming.next().await {
+            let conn = number;
+            number += 1;
+            let seen = seen.clone();
+            tokio::spawn(async move {
+                let mut pending: Vec<u8> = Vec::new();
+                let mut buf = [0u8; 1024];
+                loop {
+                    while let Some(end) = pending.windows(4).position(|w| w == b"\r\n\r\n") {
+                        let head: Vec<u8> = pending.drain(..end + 4).collect();
+                        let head = String::from_utf8_lossy(&head).to_string();
+                        let h2 = head.starts_with("PRI * HTTP/2.0");
+                        seen.lock().unwrap().push((conn, head));
+                        if h2 {
+                            return;
+                        }
+                        if stream.write_all(b"HTTP/1.1 200 OK\r\ncontent-length: 0\r\n\r\n").await.is_err() || stream.flush().await.is_err() {
+                            return;
+                        }
+                    }
+                    match stream.read(&mut buf).await {
+                        Ok(0) | Err(_) => return,
+                        Ok(k) => pending.extend_from_slice(&buf[..k]),
+                    }
+                }
+            });
+        }
+    })
+}
+
+/// what C13 says about a request head on an HTTP/1.x connection: origin-form target, exactly one Host header, with
+/// the expected value
+fn check_h1_head(ctx: &str, head: &str, method: &str, target: &str, host: &str, wrong: &mut Vec<String>) {
+    let mut lines = head.split("\r\n");
+    let line = lines.next().unwrap_or("");
+    let parts: Vec<&str> = line.split(' ').collect();
+    if parts.len() != 3 || parts[0] != method || parts[1] != target || !matches!(parts[2], "HTTP/1.1" | "HTTP/1.0") {
+        wrong.push(format!("{ctx}: request line {line:?} on an HTTP/1.1 connection, expected `{method} {target} HTTP/1.x` (origin-form)"));
+    }
+    let hosts: Vec<&str> = lines
+        .filter_map(|l| l.split_once(':'))
+        .filter(|(name, _)| name.eq_ignore_ascii_case("host"))
+        .map(|(_, value)| value.trim())
+        .collect();
+    if hosts != [host] {
+        wrong.push(format!("{ctx}: Host header(s) {hosts:?} on an HTTP/1.1 connection, expected exactly one: {host:?}; head = {head:?}"));
+    }
+}
+
+/// A.builder.host_by_connection [C13] (bounded stand-in for the ORDER of the layers in `Builder::build_service`:
+/// `SetHostHeader` implements `Service` both for a bare `http::Request` - it then goes by the REQUEST's version - and for
+/// `ExecuteRequest<C, B>` - it then goes by the CONNECTION's version; which one is used depends only on whether the layer
+/// sits above or below the connection pool, and both compile).  What goes on the wire follows the connection: a request
+/// that travels on an HTTP/1.1 connection has an origin-form target and exactly one, correct Host header, whatever
+/// version the request value itself is marked with - also when the pool hands an idle HTTP/1.1 connection to a request
+/// marked HTTP/2 (the pool key has no version).
+///   (i)   pooled clients: an HTTP/1.1 request, then requests to the same origin marked HTTP/2, 1.0, 0.9, 3, 2, 1.1
+///   (ii)  clients without pool: requests marked 1.1, 1.0, 0.9, 3 (each on its own HTTP/1.1 connection)
+///   (iii) both again with a caller-supplied Host header, which is kept as the only one
+#[tokio::test]
+async fn standin_builder_host_by_connection() {
+    use crate::client::conn::protocol::auto::HttpConnectionBuilder;
+    use crate::client::conn::transport::duplex::DuplexTransport;
+    use crate::client::{Builder, Client};
+
+    crate::fixtures::tls_install_default();
+    const T: std::time::Duration = std::time::Duration::from_secs(10);
+    use http::Version as V;
+
+    let builds: Vec<(&str, bool, Box<dyn Fn(DuplexTransport) -> Client>)> = vec![
+        ("Client::builder(), default pool", true, Box::new(|t| {
+            Client::builder().with_protocol(HttpConnectionBuilder::default()).with_transport(t).with_default_pool().build()
+        })),
+        ("Builder::default().without_tls()", true, Box::new(|t| Builder::default().without_tls().with_transport(t).build())),
+        ("with_tls(config), default pool", true, Box::new(|t| {
+            Client::builder().with_auto_http().with_transport(t).with_tls(crate::fixtures::tls_client_config()).with_default_pool().build()
+        })),
+        ("Client::builder(), without_pool()", false, Box::new(|t| {
+            Client::builder().with_auto_http().with_transport(t).without_pool().build()
+        })),
+        ("with_tls(config), no pool", false, Box::new(|t| {
+            Client::builder().with_tls(crate::fixtures::tls_client_config()).with_auto_http().with_transport(t).build()
+        })),
+    ];
+
+    let mut wrong = Vec::new();
+    for (name, pooled, build) in &builds {
+        for caller_host in [None, Some("caller.example:81")] {
+            let (tx, incoming) = crate::stream::duplex::pair();
+            let seen: SeenHeads = Default::default();
+            let peer = h1_raw_recording_peer(incoming, seen.clone());
+            let mut client = build(DuplexTransport::new(16 * 1024, tx));
+            let versions: &[V] = if *pooled {
+                &[V::HTTP_11, V::HTTP_2, V::HTTP_10, V::HTTP_09, V::HTTP_3, V::HTTP_2, V::HTTP_11]
+            } else {
+                // without a pool a request marked HTTP/2 dials a prior-knowledge HTTP/2 connection: see A.builder.h2_checks
+                &[V::HTTP_11, V::HTTP_10, V::HTTP_09, V::HTTP_3]
+            };
+            for (i, version) in versions.iter().enumerate() {
+                let ctx = format!("[{name}] caller Host {caller_host:?}, request {i} marked {version:?}");
+                let target = format!("/r{i}?x=y");
+                let mut req = http::Request::builder()
+                    .method(http::Method::GET)
+                    .uri(format!("http://test.example:8080{target}"))
+                    .version(*version)
+                    .body(crate::Body::empty())
+                    .unwrap();
+                if let Some(h) = caller_host {
+                    req.headers_mut().insert(http::header::HOST, h.parse().unwrap());
+                }
+                let before = seen.lock().unwrap().len();
+                match tokio::time::timeout(T, client.request(req)).await {
+                    Err(_) => { wrong.push(format!("{ctx}: no response within {T:?}")); break; }
+                    Ok(Err(e)) => {
+                        // a client that refuses a version it does not speak is within the property; what it does send is checked
+                        println!("{ctx}: not sent, the client answered {e}");
+                    }
+                    Ok(Ok(resp)) => {
+                        if resp.status() != http::StatusCode::OK {
+                            wrong.push(format!("{ctx}: response {}", resp.status()));
+                        }
+                        drop(resp);
+                    }
+                }
+                let log = seen.lock().unwrap().clone();
+                for (conn, head) in log.iter().skip(before) {
+                    if head.starts_with("PRI * HTTP/2.0") {
+                        println!("{ctx}: went to a new prior-knowledge HTTP/2 connection {conn} (outside this scenario)");
+                        continue;
+                    }
+                    println!("{ctx}: connection {conn} <- {:?}", head.split("\r\n").next().unwrap_or(""));
+                    check_h1_head(&ctx, head, "GET", &target, caller_host.unwrap_or("test.example:8080"), &mut wrong);
+                }
+                // let the connection go back to the pool before the next request asks for one
+                tokio::time::sleep(std::time::Duration::from_millis(40)).await;
+            }
+            drop(client);
+            peer.abort();
+        }
+    }
+    assert!(wrong.is_empty(), "request head does not follow the CONNECTION's protocol:\n{}", wrong.join("\n"));
+}
